@@ -34,3 +34,22 @@ package controller
 //@        && nMatch(c.ScheduleLinks, keyseq(), crontab, t) + ite(c.ScheduleLinks[keyseq()[t]].Crontab == crontab, 1, 0) <= nMatch(c.ScheduleLinks, keyseq(), crontab, nvisited()))
 //@     invariant forall(t, 0, nvisited(), has(c.ScheduleLinks, keyseq()[t]) && (c.ScheduleLinks[keyseq()[t]].Crontab == crontab ==> InfoOf(res[nMatch(c.ScheduleLinks, keyseq(), crontab, t)], c.ScheduleLinks[keyseq()[t]])))
 //@     invariant forall(j, 0, len(res), exists(k, string, has(c.ScheduleLinks, k) && c.ScheduleLinks[k].Crontab == crontab && InfoOf(res[j], c.ScheduleLinks[k])))
+
+// ---- C09: kube events become binding contexts carrying the binding's settings ---------------
+
+//@ pred CtxOf(bc bctx.BindingContext, kubeEvent kemtypes.KubeEvent, link *KubernetesBindingToMonitorLink) := bc.Binding == link.BindingConfig.BindingName
+//@     && bc.Type == kubeEvent.Type && bc.Objects == kubeEvent.Objects && bc.Metadata.BindingType == htypes.OnKubernetesEvent
+//@     && bc.Metadata.JqFilter == link.BindingConfig.Monitor.JqFilter && bc.Metadata.IncludeSnapshots == link.BindingConfig.IncludeSnapshotsFrom
+//@     && bc.Metadata.Group == link.BindingConfig.Group && !bc.Metadata.IncludeAllSnapshots
+
+//@ func ConvertKubeEventToBindingContext
+//@   prop C09
+//@   requires link != nil && link.BindingConfig.Monitor != nil
+//@   modifies nothing
+//@   ensures [synchronization] kubeEvent.Type == kemtypes.TypeSynchronization ==> len(result) == 1 && CtxOf(result[0], kubeEvent, link) && result[0].WatchEvent == ""
+//@   ensures [events]          kubeEvent.Type == kemtypes.TypeEvent ==> len(result) == len(kubeEvent.WatchEvents)
+//@        && forall(j, 0, len(result), CtxOf(result[j], kubeEvent, link) && result[j].WatchEvent == kubeEvent.WatchEvents[j])
+//@   ensures [other]           kubeEvent.Type != kemtypes.TypeSynchronization && kubeEvent.Type != kemtypes.TypeEvent ==> len(result) == 0
+//@   loop 1
+//@     invariant 0 <= iter() && iter() <= len(kubeEvent.WatchEvents) && fresh(bindingContexts) && len(bindingContexts) == iter()
+//@     invariant forall(j, 0, iter(), CtxOf(bindingContexts[j], kubeEvent, link) && bindingContexts[j].WatchEvent == kubeEvent.WatchEvents[j])
